@@ -727,6 +727,31 @@ def replay_literal(exe, failures):
     return {"status": "not_reproduced" if ran else "unavailable", "summary": "the tokenizer agrees natively on every concrete literal" if ran else "no scenario could be made concrete", "attempts": tried}
 
 
+def replay_clock(exe, failures):
+    """a call that reads the clock must stay a call in the compiled program: compile `name()` and look
+    for the CALL; a program without it has the time of compilation frozen in (two executions
+    then also return the very same instant)"""
+    tried = []
+    for f in failures:
+        sc = f.get("scenario")
+        if not sc or sc.get("kind") != "clock":
+            continue
+        name = sc["call"].split("(")[0]
+        src = f"{name}()"
+        out, why = run(exe, "parse", [{"source": src, "params": {}}, {"source": src, "params": {}}])
+        if out is None:
+            tried.append({"label": f["label"], "skipped": why})
+            continue
+        rec = {"label": f["label"], "source": src, "native": {"bytecode": out[0].get("bytecode"), "result": out[0].get("result")}}
+        tried.append(rec)
+        bc = out[0].get("bytecode") or ""
+        if "error" not in out[0] and "CALL" not in bc and "TimeStamp(" in bc:
+            rec["reproduced"] = True
+            return {"status": "reproduced", "summary": f"`{src}` compiles to the constant `{bc.strip()}`: the time of compilation is frozen into the program", "attempts": tried}
+    ran = any("native" in t for t in tried)
+    return {"status": "not_reproduced" if ran else "unavailable", "summary": "the compiled programs keep the call" if ran else "no scenario could be made concrete", "attempts": tried}
+
+
 def main():
     rec_path, out_path, repo, kani_dir, cache = sys.argv[1:6]
     rec = json.load(open(rec_path))
@@ -743,6 +768,8 @@ def main():
             r = r2 if r2["status"] == "reproduced" else r
     elif any((f.get("scenario") or {}).get("kind") == "vm" for f in fails):
         r = replay_vm(exe, fails)
+    elif any((f.get("scenario") or {}).get("kind") == "clock" for f in fails):
+        r = replay_clock(exe, fails)
     elif any((f.get("scenario") or {}).get("kind") == "grammar" for f in fails):
         from replay_grammar import replay_grammar
         r = replay_grammar(run, exe, fails)
